@@ -299,4 +299,36 @@ theorem sameOutcome_of_answerOk (p : P) (w' : World S T) (r : Except String (Pro
     cases I.validate (Dict.update memo.independent_environment m) <;> simp [SameOutcome]
 
 end
+
+/-! ### a concrete instance (used by the non-vacuity examples of Props/C20) -/
+namespace Demo
+
+/-- toy providers: (memoized field, independent field) -/
+def I : Iface (Bool × Nat) Nat (Dict Nat) (ProviderMemo Nat) (Store (ProviderMemo Nat)) where
+  name := fun _ => "Toy"
+  memoKeyStr := fun p => if p.1 then "t" else "f"
+  memoPart := fun p => .ok [("m", if p.1 then 10 else 20)]
+  indepPart := fun p => .ok [("i", p.2)]
+  validate := fun d => .ok d
+  digest := fun s _ => s
+  ser := id
+  deser := .ok
+  dumpStore := id
+  loadStore := .ok
+
+theorem hKey : ∀ p q, key I p = key I q → I.memoPart p = I.memoPart q := by
+  intro ⟨a, x⟩ ⟨b, y⟩ h
+  cases a <;> cases b <;> first | rfl | (simp [key, I] at h)
+
+def history : List (Op (Bool × Nat)) :=
+  [.newInMemory none, .request (.inMemory 0) (true, 5), .request (.inMemory 0) (true, 6), .export 0,
+   .saveJson 0 "memo.json", .restart, .newPersistent "memo.json", .request (.persistent "memo.json") (false, 7)]
+
+/-- after that history the file-backed memoizer is alive … -/
+theorem alive : (Handle.persistent "memo.json").Valid (after (E := Dict Nat) I World.empty history) := by
+  show Dict.has _ _ = true
+  decide
+
+end Demo
+
 end Simaple.Memo
